@@ -5,6 +5,7 @@ sys.path.insert(0, os.path.dirname(os.path.abspath(__file__)))
 import vx
 r = vx.run_unit(sys.argv[1], tier=(sys.argv[2] if len(sys.argv) > 2 else 'quick'), keep='/tmp/vxkeep')
 print('status', r['status'], 'verified', r['verified'], 'errors', r['errors'], 'wall', r['wall_s'])
+print('dropped_hints', r.get('dropped_hints'), 'lost_hints', r.get('lost_hints'), 'passes', r.get('passes'))
 for n in r['notes']:
     print('NOTE', n[:3000])
 for cid, msgs in r['failed'].items():
